@@ -109,6 +109,28 @@ def random_cases(k, seed, maxn=30):
     return out
 
 
+def pipeline_groups(k, seed, maxn=8):
+    """groups of 2-3 call trees, each under its own workflow name with its own prior-information / rename maps, to be
+    sequenced in ONE run of the real otel_to_pv whose configuration holds the maps per workflow name (the asynchronous
+    flag is one setting of the run, so the trees of a group share it)"""
+    base = random_cases(3 * k, seed + 7919, maxn=maxn)
+    by = {False: [c for c in base if not c["async"]], True: [c for c in base if c["async"]]}
+    out = []
+    rnd = random.Random(repr(("c08p", seed)))
+    for asy in (False, True):
+        cs = by[asy]
+        i = 0
+        while i < len(cs) and len(out) < k:
+            sz = rnd.choice((2, 3))
+            grp = cs[i:i + sz]
+            i += sz
+            if len(grp) < 2:
+                break
+            out.append([dict(c, job="job-%d" % (j + 1), name=["orders", "billing flow", "Wf-3"][j], app="app-%d" % (j + 1))
+                        for j, c in enumerate(grp)])
+    return out
+
+
 def case_tla(c, obs=None):
     def seq(xs, q=False):
         return "<<" + ", ".join(('"%s"' % x) if q else str(x) for x in xs) + ">>"
@@ -121,7 +143,7 @@ def case_tla(c, obs=None):
         c["n"], seq(c["par"]), seq(c["ty"], True), seq(c["s"]), seq(c["e"]), tlc.tla(bool(c["async"])),
         ", ".join('<<"%s", "%s", "%s">>' % tuple(g) for g in c["grp"]),
         ", ".join('[from |-> "%s", to |-> "%s", kids |-> {%s}]' % (r["from"], r["to"], ", ".join('"%s"' % k for k in r["kids"]))
-                  for r in c["ren"]), JOB, NAME, APP, o)
+                  for r in c["ren"]), c.get("job", JOB), c.get("name", NAME), c.get("app", APP), o)
 
 
 CFG = "INIT Init\nNEXT Next\nINVARIANT Report\nINVARIANT MachineIsClosedForm\nINVARIANT OncePerSpan\n" \
